@@ -105,6 +105,12 @@ def run(ck, F):
         ck.ok("R5", "crate-roots", "helpers_content.rs", f"{len(roots)} path roots in the prelude, none of them a zeep-only crate")
     rule_spelling(ck, F, X)
     rule_injectivity(ck, F, X)
+    # one module per target namespace, named after its abbreviation: the names are distinct only if the abbreviations are. The
+    # uniqueness obligations of C10 (a new abbreviation is tested against every namespace of the document, one allocation per URI),
+    # decided here as well
+    from rules import c04 as C04
+    from rules import c10 as C10
+    C10.run(C04._Sub(ck, "R6", lambda key: True, only_rules=("R1", "R2", "R3")), F)
     rule_self_alias(ck, F, X)
     rule_member_separators(ck, F, X)
     rule_skeletons(ck, F)
